@@ -28,10 +28,14 @@ const (
 	cfGarbage   // a well-framed message that is not a valid protobuf
 	cfPremature // an answer for a request the client has not read yet
 	cfEmptyName // an answer without test name
+	// the client closes its stdout cleanly (between two messages), stops
+	// reading stdin and lingers until it is killed: output "truncated" exactly
+	// at a message boundary by a process that does not go away on its own
+	cfCloseStdout
 	cfKinds
 )
 
-var cfNames = []string{"none", "cut-at-byte", "duplicate-answer", "unknown-name", "oversize-prefix", "garbage-message", "premature-answer", "empty-name"}
+var cfNames = []string{"none", "cut-at-byte", "duplicate-answer", "unknown-name", "oversize-prefix", "garbage-message", "premature-answer", "empty-name", "close-stdout-and-linger"}
 
 // answer kinds (what the scripted client reports for a request)
 const (
@@ -85,6 +89,7 @@ type writtenAnswer struct {
 }
 
 type simClient struct {
+	stdoutClosed bool // cfCloseStdout fired
 	sc   clientScript
 	sim  *simrt.Sim
 	name string
@@ -263,6 +268,13 @@ func (c *simClient) injectMessageFault() {
 		binary.BigEndian.PutUint32(b, uint32(maxClientResponseSize+1+c.sc.CutAt))
 	case cfGarbage:
 		b = frame([]byte{0xff, 0xff, 0xff, 0xff, 0x07, 0x01})
+	case cfCloseStdout:
+		c.faulted = true
+		c.stdoutClosed = true
+		c.faultFired[cfNames[cfCloseStdout]]++
+		c.sim.MixLog("fault:" + cfNames[cfCloseStdout])
+		_ = c.out.Close()
+		return
 	default:
 		return
 	}
@@ -438,6 +450,10 @@ func (c *simClient) implProcess(ctx context.Context, _ []string, in io.ReadClose
 			}
 			c.die()
 			return status()
+		}
+		if c.stdoutClosed {
+			simrt.Recv(c.deadCh, "simclient.linger")
+			return c.deathStatus(status)
 		}
 		if c.sc.StopReadingAt >= 0 && len(c.received) >= c.sc.StopReadingAt {
 			c.faultFired["stop-reading-stdin"]++
